@@ -160,7 +160,7 @@ def _try(world, acts, side, op):
     return True
 
 
-MACROS = ("takeover", "safe_save", "swap", "move_and_edit", "ephemeral", "takeover_keep")
+MACROS = ("takeover", "safe_save", "swap", "move_and_edit", "ephemeral", "takeover_keep", "deep_create_then_rename")
 
 
 def emit_macro(d, world, acts, side):
@@ -195,6 +195,22 @@ def emit_macro(d, world, acts, side):
         n = d.choice(news)
         if _try(world, acts, side, ("rename", x, n)):
             _try(world, acts, side, ("write", n, world.new_content()))
+    elif kind == "deep_create_then_rename":
+        # something new at least two levels below a folder, then that folder is renamed before the engine has looked
+        dirs = [g for g in tree.dirs() if g]
+        tops = [g for g in dirs if any(tree.is_dir(q) for q in tree.subtree(g))]
+        if tops and news:
+            x = d.choice(tops)
+            inner = [q for q in tree.subtree(x) if tree.is_dir(q)]
+            h = d.choice(inner)
+            from .model import NAMES
+            free = [h + "/" + n for n in NAMES if not tree.exists(h + "/" + n)]
+            dst = [n for n in news if not n.startswith(x + "/") and n != x]
+            if free and dst:
+                p = d.choice(free)
+                first = ("mkdir", p) if d.bool() else ("create", p, world.new_content())
+                if _try(world, acts, side, first):
+                    _try(world, acts, side, ("rename", x, d.choice(dst)))
     elif kind == "ephemeral" and news:
         n = d.choice(news)
         if _try(world, acts, side, ("create", n, world.new_content())):
